@@ -3764,6 +3764,7 @@ func (fastpathDTMsgpackBytes) DecSliceIntfY(v []interface{}, d *decoderMsgpackBy
 	hasLen := containerLenS >= 0
 	var j int
 	fnv := func(dst []interface{}) { v, changed = dst, true }
+	len0 := len(v)
 	for ; d.containerNext(j, containerLenS, hasLen); j++ {
 		if j == 0 {
 			if containerLenS == len(v) {
@@ -3789,7 +3790,11 @@ func (fastpathDTMsgpackBytes) DecSliceIntfY(v []interface{}, d *decoderMsgpackBy
 		if j >= len(v) {
 			fnv(append(v, nil))
 		}
+		if j >= len0 {
+			v[uint(j)] = nil
+		}
 		d.decode(&v[uint(j)])
+
 	}
 	if j < len(v) {
 		fnv(v[:uint(j)])
@@ -9999,6 +10004,7 @@ func (fastpathDTMsgpackIO) DecSliceIntfY(v []interface{}, d *decoderMsgpackIO) (
 	hasLen := containerLenS >= 0
 	var j int
 	fnv := func(dst []interface{}) { v, changed = dst, true }
+	len0 := len(v)
 	for ; d.containerNext(j, containerLenS, hasLen); j++ {
 		if j == 0 {
 			if containerLenS == len(v) {
@@ -10024,7 +10030,11 @@ func (fastpathDTMsgpackIO) DecSliceIntfY(v []interface{}, d *decoderMsgpackIO) (
 		if j >= len(v) {
 			fnv(append(v, nil))
 		}
+		if j >= len0 {
+			v[uint(j)] = nil
+		}
 		d.decode(&v[uint(j)])
+
 	}
 	if j < len(v) {
 		fnv(v[:uint(j)])
